@@ -5,6 +5,7 @@ CONSTANTS
   Epoch = 3
   InitNumber = 3
   InitSet = {1, 2, 3}
+  InitAnn = {1, 2, 3}
   InitSigner = 1
   MaxNumber = 9
   UpgradeSets = {{2, 4}}
